@@ -9,6 +9,8 @@
 -/
 import CimbaModel.Rng.Lemmas
 
+set_option linter.unusedSimpArgs false
+
 namespace CimbaModel.Props.C15
 open CimbaModel.Generated CimbaModel.Rng
 
@@ -195,10 +197,10 @@ theorem geometric_memo_pure {F : Type} (o : FloatOps F) (valid : F → Prop)
     have hx0 := h0 x hx
     have hy0 := h0 y hy
     by_cases hne : o.ne x y = true
-    · simp [cmb_random_geometric_prologue, cmb_random_geometric_Memo.init, hx0, hy0]
+    · simp [cmb_random_geometric_prologue, cmb_random_geometric_Memo.init, hx0, hy0, hne]
     · have hxy := h1 x y hx (by simpa using hne)
       subst hxy
-      simp [cmb_random_geometric_prologue, cmb_random_geometric_Memo.init, hx0]
+      simp [cmb_random_geometric_prologue, cmb_random_geometric_Memo.init, hx0, hne]
   rw [memo_is_first_call _ _ valid hstep m₁ r₁ p hv, memo_is_first_call _ _ valid hstep m₂ r₂ p hv]
 
 /- the hypotheses h0, h1 are satisfiable with valid arguments existing: integers, literals read as 0, valid = positive -/
